@@ -79,20 +79,28 @@ Fixpoint lpm_common (node key : list N) (limit acc : N) : N :=
       else lpm_common node' key' limit acc'
   | _, _ => acc
   end.
-Definition lpm_matchlen (big : bool) (node key : lpm_key) : N :=
-  lpm_common (key_bytes big node) (key_bytes big key) (N.min (lk_prefixlen node) (lk_prefixlen key)) 0.
+(* a stored node / a lookup key inside the kernel: prefixlen and the data bytes (copied at update time) *)
+Record lpm_node := { ln_prefixlen : N; ln_data : list N }.
+Definition lpm_node_of_key (big : bool) (k : lpm_key) : lpm_node :=
+  {| ln_prefixlen := lk_prefixlen k; ln_data := key_bytes big k |}.
+Definition lpm_matchlen (node key : lpm_node) : N :=
+  lpm_common (ln_data node) (ln_data key) (N.min (ln_prefixlen node) (ln_prefixlen key)) 0.
 (* trie_lookup_elem: the stored key of greatest prefixlen all of whose prefixlen bits the probe shares *)
-Definition lpm_lookup (big : bool) (nodes : list lpm_key) (key : lpm_key) : option N :=
+Definition lpm_lookup (nodes : list lpm_node) (key : lpm_node) : option N :=
   fold_left (fun best node =>
-               if lpm_matchlen big node key =? lk_prefixlen node then
+               if lpm_matchlen node key =? ln_prefixlen node then
                  match best with
-                 | Some l => if l <? lk_prefixlen node then Some (lk_prefixlen node) else best
-                 | None => Some (lk_prefixlen node)
+                 | Some l => if l <? ln_prefixlen node then Some (ln_prefixlen node) else best
+                 | None => Some (ln_prefixlen node)
                  end
                else best) nodes None.
 Definition is_some {A} (o : option A) : bool := match o with Some _ => true | None => false end.
-Definition kernel_match (big : bool) (ps : list prefix) (a : N) : bool :=
-  is_some (lpm_lookup big (map (cidr_to_lpm_key big) ps) (probe_key big a)).
+(* the map after BpfMapBatchUpdate of the keys of a set *)
+Definition lpm_map_of (big : bool) (ps : list prefix) : list lpm_node :=
+  map (fun p => lpm_node_of_key big (cidr_to_lpm_key big p)) ps.
+Definition kernel_lookup (big : bool) (ps : list prefix) (a : N) : option N :=
+  lpm_lookup (lpm_map_of big ps) (lpm_node_of_key big (probe_key big a)).
+Definition kernel_match (big : bool) (ps : list prefix) (a : N) : bool := is_some (kernel_lookup big ps a).
 
 (* ---------- canonicalizePrefixes ---------- *)
 Definition prefix_eqb (p q : prefix) : bool :=
@@ -189,33 +197,90 @@ Section Hash.
 End Hash.
 
 (* ---------- BuildUserspace + Match on these rules ---------- *)
-Definition rule_target (r : rule) (k : packet) : N := target (r_role r) k.
+(* BuildUserspace: one trie per stored set *)
+Definition build_userspace (tries : list (list prefix)) : list (list (list bool)) :=
+  map new_trie_from_prefixes tries.
+(* Match: ipSetBin / sourceIpSetBin / macBin are computed once per call *)
+Definition packet_bin (k : packet) (r : role) : list bool :=
+  match r with RDst => probe_bin (k_dst k) | RSrc => probe_bin (k_src k) | RMac => probe_bin (k_mac k) end.
 (* lpm.HasPrefix(targetBin) on lpmMatcher[lpmIndex]; a bad index is an error (None) *)
-Fixpoint match_rules (tries : list (list prefix)) (rs : list rule) (k : packet) (i : N) : option (option N) :=
-  match rs with
-  | [] => Some None
-  | r :: rest =>
-      match nth_error tries (N.to_nat (r_index r)) with
-      | None => None
-      | Some ps =>
-          let good := trie_match ps (rule_target r k) in
-          if Bool.eqb good (r_not r) then match_rules tries rest k (i + 1) else Some (Some i)
-      end
-  end.
-(* the same decision taken by the kernel over the LPM keys of the stored sets *)
-Fixpoint match_rules_kernel (big : bool) (tries : list (list prefix)) (rs : list rule) (k : packet) (i : N)
+Fixpoint match_loop (lpm : list (list (list bool))) (rs : list rule) (bin : role -> list bool) (i : N)
   : option (option N) :=
   match rs with
   | [] => Some None
   | r :: rest =>
-      match nth_error tries (N.to_nat (r_index r)) with
+      match nth_error lpm (N.to_nat (r_index r)) with
       | None => None
-      | Some ps =>
-          let good := kernel_match big ps (rule_target r k) in
-          if Bool.eqb good (r_not r) then match_rules_kernel big tries rest k (i + 1) else Some (Some i)
+      | Some t =>
+          let good := has_prefix t (bin (r_role r)) in
+          if Bool.eqb good (r_not r) then match_loop lpm rest bin (i + 1) else Some (Some i)
       end
   end.
+Definition match_rules (tries : list (list prefix)) (rs : list rule) (k : packet) : option (option N) :=
+  let lpm := build_userspace tries in
+  let dst := packet_bin k RDst in
+  let src := packet_bin k RSrc in
+  let mac := packet_bin k RMac in
+  match_loop lpm rs (fun r => match r with RDst => dst | RSrc => src | RMac => mac end) 0.
+
+(* the same decision taken by the kernel: one LPM map per stored set (buildRoutingKernspace), three lookup
+   keys per packet (tproxy.c fills lpm_key_saddr / lpm_key_daddr / lpm_key_mac once) *)
+Fixpoint match_loop_kernel (maps : list (list lpm_node)) (rs : list rule) (key : role -> lpm_node) (i : N)
+  : option (option N) :=
+  match rs with
+  | [] => Some None
+  | r :: rest =>
+      match nth_error maps (N.to_nat (r_index r)) with
+      | None => None
+      | Some m =>
+          let good := is_some (lpm_lookup m (key (r_role r))) in
+          if Bool.eqb good (r_not r) then match_loop_kernel maps rest key (i + 1) else Some (Some i)
+      end
+  end.
+Definition match_rules_kernel (big : bool) (tries : list (list prefix)) (rs : list rule) (k : packet)
+  : option (option N) :=
+  let maps := map (lpm_map_of big) tries in
+  let dst := lpm_node_of_key big (probe_key big (k_dst k)) in
+  let src := lpm_node_of_key big (probe_key big (k_src k)) in
+  let mac := lpm_node_of_key big (probe_key big (k_mac k)) in
+  match_loop_kernel maps rs (fun r => match r with RDst => dst | RSrc => src | RMac => mac end) 0.
 
 (* what the user wrote, as spec rules *)
 Definition spec_rule_of (r : rule) : set_rule :=
   {| sr_role := r_role r; sr_not := r_not r; sr_set := r_values r |}.
+
+(* ---------- component/dns/response_routing.go: ResponseMatcherBuilder.addIp + ResponseMatcher.Match ---------- *)
+(* addIp: ipSet = append(ipSet, NewTrieFromPrefixes(cidrs)) with Value = its position (no canonicalisation,
+   no sharing); Match: slices.ContainsFunc(bin128, ipSet[Value].HasPrefix) over the answer's addresses *)
+Record resp_rule := { rr_not : bool; rr_values : list prefix }.
+Fixpoint response_loop (tries : list (list (list bool))) (rs : list resp_rule) (bins : list (list bool)) (i : N)
+  : option N :=
+  match rs, tries with
+  | r :: rest, t :: trest =>
+      if Bool.eqb (existsb (has_prefix t) bins) (rr_not r) then response_loop trest rest bins (i + 1) else Some i
+  | _, _ => None
+  end.
+Definition response_match (rs : list resp_rule) (ips : list N) : option N :=
+  response_loop (map (fun r => new_trie_from_prefixes (rr_values r)) rs) rs (map probe_bin ips) 0.
+Definition resp_spec_rules (rs : list resp_rule) : list (bool * list prefix) :=
+  map (fun r => (rr_not r, rr_values r)) rs.
+
+(* ---------- vocabulary of the theorems' hypotheses ---------- *)
+(* the prefix the loop really denotes: an IPv6 /0 is read as the full 128-bit address *)
+Definition effective (p : prefix) : prefix :=
+  if len128 p =? 0 then {| p_is4 := false; p_addr := addr128 p; p_bits := 128 |} else p.
+
+Definition no_v6_len0 (ps : list prefix) : bool := forallb (fun p => negb (len128 p =? 0)) ps.
+
+Definition op_all (P : prefix -> bool) (o : op) : bool :=
+  match o with
+  | OpIp _ _ vs => forallb P vs
+  | OpMac _ ms => forallb (fun m => P (mac_prefix m)) ms && P (mac_prefix 0)
+  end.
+Definition wf_op (o : op) : bool :=
+  match o with OpIp _ _ vs => forallb wf_prefix vs | OpMac _ ms => forallb wf_mac ms end.
+Definition wf_packet (k : packet) : bool := wf_addr (k_dst k) && wf_addr (k_src k) && wf_addr (k_mac k).
+Definition op_no_v6_len0 (o : op) : bool :=
+  match o with OpIp _ _ vs => no_v6_len0 vs | OpMac _ _ => true end.
+Definition wf_resp_rule (r : resp_rule) : bool := forallb wf_prefix (rr_values r).
+Definition resp_no_v6_len0 (r : resp_rule) : bool := no_v6_len0 (rr_values r).
